@@ -43,7 +43,7 @@ EXPECTED_PROBES = [f"fault_cut_{c}_{k}" for c in CUT_CLASSES for k in ("fin", "r
     "probe_retry_path", "probe_server_error", "probe_server_shutdown", "probe_peer_push_handled", "probe_cut_with_calls_pending",
     "probe_big_response", "probe_big_request", "probe_unencodable_request", "probe_broken_on_error_ran",
     "probe_many_unencodable_requests_then_a_call", "net_cut_timeout", "probe_two_connections", "line_preemptions_hot", "probe_bidirectional", "probe_reverse_call",
-    "probe_server_initiated_close", "net_stall"]
+    "probe_server_initiated_close", "net_stall", "probe_request_with_effect"]
 WALL_CAP = {"quick": 400, "thorough": 3600}
 
 
@@ -121,16 +121,23 @@ def scenario(ch, cfg):
     def viol(sig, msg):
         violations.append({"sig": sig, "msg": msg})
 
+    evlog = []
+
+    def ev(x):
+        evlog.append(int(x))
+        return int(x) + 1
     # ---- server
     bidir = bool(cfg.get("bidir"))
     SRC = ["sq::{x*x}", "v::4711", "cnt::{[a];a::x;#a}", "big::{[a];a::x;!a}"]
     if peer_kind == "real":
         env.server.klong["unpd"] = {1: (lambda: 0)}      # a server-side value that cannot be pickled
+        env.server.klong["ev"] = ev
         if bidir:
             # the documented server-push set-up: .srv.o receives the handle of the connecting client and keeps it;
             # the server later calls the client through it (docs/ipc_capabilities.md, "Server Callbacks")
             SRC = SRC + ["cl::0", ".srv.o::{cl::x}"]
             env.client.klong["unpd"] = {1: (lambda: 0)}
+            env.client.klong["ev"] = ev
             for line in SRC[:4]:
                 env.client.klong(line)
         if fault != "connect-first":
@@ -205,7 +212,12 @@ def scenario(ch, cfg):
     # ---- callers
     def make_msg(i, j):
         base = 1000 * (i + 1)
-        kind = 0 if peer_kind == "scripted" else ch.weighted([10, 4, 2, 2, 2, 2, 2, 2, 2, 1], "msgkind")
+        kind = 0 if peer_kind == "scripted" else ch.weighted([10, 4, 2, 2, 2, 2, 2, 2, 2, 1, 5], "msgkind")
+        if kind == 10:
+            # a request with an effect on the serving side: it happens once if the call returns, at most once whatever
+            # becomes of the connection ("not twice")
+            stats["probe_request_with_effect"] += 1
+            return f"ev({base + j})", base + j + 1
         if kind == 9:
             # a long history of locally failing requests on this connection (each must raise), then an ordinary call:
             # failed sends must not use anything up
@@ -341,7 +353,7 @@ def scenario(ch, cfg):
             if bidir and close_side:
                 # the server closes this connection through its handle (what its shutdown event does): the same
                 # handshake, started from the other end
-                stats["probe_server_initiated_close", "net_stall"] += 1
+                stats["probe_server_initiated_close", "net_stall", "probe_request_with_effect"] += 1
                 ncs[1].close()
             else:
                 nc.close()
@@ -409,11 +421,21 @@ def scenario(ch, cfg):
             # nothing was injected that could excuse a failure: the call must return its answer
             viol(f"C14:call-raised-without-fault:{oc[1]}", f"call {rec['caller']}.{rec['idx']} {rec['msg']} raised {oc[1]}: {oc[2]} in a run without any injected fault ({fault})")
         if oc[0] == "ok":
-            if exp in ("error", "must-fail"):
-                if exp == "must-fail":
-                    viol("C14:call-after-loss-returned-a-value", f"call {rec['caller']}.{rec['idx']} issued after the connection was lost returned {oc[1]!r}; {ctx}")
-                else:
-                    viol("C14:server-error-not-propagated", f"call {rec['msg']} returned {oc[1]!r} although the server-side evaluation fails")
+            if exp == "must-fail":
+                # "calls made after the connection has gone fail promptly rather than hang": what is demanded is that the
+                # call completes.  An implementation that has a connection again by then may answer - with this call's own
+                # answer, nothing else
+                stats["probe_call_after_loss_answered"] += 1
+                want = int(str(rec["msg"]).strip("'").split("+")[0]) + 1
+                try:
+                    ok_ = int(oc[1]) == want
+                except Exception:
+                    ok_ = False
+                if not ok_:
+                    viol("C14:call-after-loss-returned-a-wrong-value", f"call {rec['caller']}.{rec['idx']} {rec['msg']} issued after the connection was lost returned "
+                         f"{oc[1]!r}, which is not its answer {want}; {ctx}")
+            elif exp == "error":
+                viol("C14:server-error-not-propagated", f"call {rec['msg']} returned {oc[1]!r} although the server-side evaluation fails")
             else:
                 try:
                     if isinstance(exp, tuple) and exp[0] == "len":
@@ -427,6 +449,15 @@ def scenario(ch, cfg):
                     others = [r["expected"] for r in records if r is not rec]
                     sig = "C14:anothers-answer" if any(str(oc[1]) == str(o) for o in others) else "C14:wrong-answer"
                     viol(sig, f"call {rec['caller']}.{rec['idx']} {rec['msg']} returned {oc[1]!r}, its own answer is {exp!r}; {ctx}")
+    # effects: every request is evaluated at most once; exactly once when its call returned
+    for rec in records:
+        if isinstance(rec["expected"], int) and str(rec["msg"]).startswith("'ev("):
+            n_ev = evlog.count(rec["expected"] - 1)
+            if n_ev > 1:
+                viol("C14:request-evaluated-more-than-once", f"call {rec['caller']}.{rec['idx']} {rec['msg']} was evaluated {n_ev} times on the serving side "
+                     f"(outcome at the caller: {str(rec.get('outcome'))[:60]}); {ctx}")
+            elif n_ev == 0 and rec.get("outcome", ("",))[0] == "ok":
+                viol("C14:answered-without-evaluation", f"call {rec['caller']}.{rec['idx']} {rec['msg']} returned {rec['outcome'][1]!r} but was never evaluated on the serving side")
     # arrival order probe
     inv = [(r["inv_step"], r["ret_step"]) for r in records if r.get("outcome", ("",))[0] == "ok"]
     if any(a[0] < b[0] and a[1] > b[1] for a in inv for b in inv):
